@@ -56,9 +56,10 @@ SECURITY_FNS = ["has_permission", "apply_if_auth", "apply_to_database_name_if_ha
 
 PROPS = {
     "C01": dict(
-        units=["store", "listing", "snapshot", "replies"],
+        units=["store", "listing", "snapshot", "replies", "parser"],
         kani=[K_PATTERN_CHOICE],
-        undecided=["parser glue (that `get k` parses to Request::Get{key: k} ...) and the dispatcher arms of the WRITING commands (set / set-safe / remove / increment: their closures "
+        undecided=["the command-word table of Request::parse (a lazy_static HashMap of fn pointers) and std's splitn; the per-command parsers of the data commands ARE verified against "
+                   "what each command line means (unit parser: C01.parse-*), and the dispatcher arms of the WRITING commands (set / set-safe / remove / increment: their closures "
                    "mutate through a shared &Database, which a Verus closure cannot express) - the reading arms Get / GetSafe / Keys are verified with their closure bodies (unit replies)",
                    "`keys`: String's ordering (the meaning of 'sorted') is an uninterpreted total order; the Keys arm of the dispatcher (which list_system_keys flag it passes) is "
                    "covered by the bounded sweep only"],
@@ -70,14 +71,14 @@ PROPS = {
                      "unit listing: the fn pointers returned by get_function_by_pattern are defunctionalised (R12: three tags and a match that calls the three real functions)"],
     ),
     "C02": dict(
-        units=["store", "consensus"],
+        units=["store", "consensus", "parser"],
         kani=[K_NEXT_VERSION],
         undecided=["interleavings of concurrent clients (set_value reads under one lock acquisition and writes under another): "
                    "lock elision makes every function sequential, so 'two writers never both succeed' is NOT decided"],
         assumptions=[],
     ),
     "C03": dict(
-        units=["store"],
+        units=["store", "parser"],
         undecided=["who is subscribed when (watch/unwatch/unwatch-all/disconnect races)", "delivery on a full channel (try_send)",
                    "final-view currency under concurrent writers"],
         assumptions=["notify_watchers is trusted to hand exactly one (key,value,version) record to the watchers of the key and to leave the store untouched"],
